@@ -30,6 +30,31 @@ class P(framework.Prop):
             "arity<=1, all pairs for the first two positions and a seeded sample beyond; thorough: all cells up to declared+2; also unknown "
             "names and calls through expression strings; non-trivial = the call is accepted")
 
+    def spec_line(self, case):
+        """the specification's verdict on a direct call, from Spec/SigSpec.v's table alone"""
+        if case.startswith("fn "):
+            return "specfn " + case[len("fn "):]
+        return None
+
+    def spec_equal(self, sobs, iobs):
+        s = sobs.split(" ")
+        i = iobs.split(" ")
+        if s[:1] != ["SPEC"]:
+            return False
+        v = s[1]
+        if v == "unknown-function":
+            return iobs.startswith("ERR nofunction")
+        kind = i[2] if i[:2] == ["ERR", "runtime"] else None
+        if v in ("not-enough", "too-many"):
+            # ERR runtime <kind> off line col expected actual
+            return kind == v and i[6:8] == s[2:4]
+        if v == "invalid-type":
+            # ERR runtime invalid-type off line col "expected "actual position
+            return kind == v and i[8:9] == s[2:3]
+        if v == "ok":
+            return not iobs.startswith("ERR nofunction") and kind not in ("not-enough", "too-many", "invalid-type")
+        return False
+
     def cases(self, rng, tier):
         out = []
         names = list(CLASSES)
